@@ -178,6 +178,19 @@ def r02_5(run, model):
     run.ob("R02.5", "call-only builtins|not usable as values", handled or refused, site(GOC, imm.node["sp"]),
            f"lowered by name only in calls: {sorted(inline)}; handled in compile_imm: {handled}; refused by the typer: {refused}",
            witness="let g = ref_get;  emits `var g func(*ref_int32_x) int32 = ref_get`: ref_get is not a Go identifier")
+    # the same for foreign functions: the call arm writes `pkg.Symbol`; a foreign function used as a value needs the same translation
+    call_knows = "extern_funcs" in S.norm_ws(run.facts.text(GOC, f.body["sp"]))
+    if not call_knows:
+        raise AnalysisIncomplete("compile_cexpr: the translation of extern functions in call position was not found")
+    value_knows = "extern_funcs" in it
+    refused_ext = False
+    for g in model.fns("crates/compiler/src/typer/check.rs"):
+        if g.body is not None and re.search(r"extern[a-z ]*(cannot|can't|must) be (used as a value|called)", S.norm_ws(run.facts.text("crates/compiler/src/typer/check.rs", g.body["sp"])), re.I):
+            refused_ext = True
+    run.ob("R02.5", "extern functions|translated in value position as in call position", value_knows or refused_ext, site(GOC, imm.node["sp"]),
+           f"compile_imm consults extern_funcs: {value_knows}; refused by the typer: {refused_ext}",
+           witness="extern \"go\" \"strings\" \"ToUpper\" to_upper(s: string) -> string; let f = to_upper; emits the bare name `to_upper` (declared "
+                   "nowhere) and prunes the strings import")
 
 
 def seg_selector(txt):
@@ -391,6 +404,16 @@ def r02_11(run, model):
                f"gen_type_definition emits field types of {t}(); collector visits them: {ok}",
                witness="enum Shape { Dot, Segment((int32,int32),(int32,int32)) } with only Shape::Dot constructed: the output declares "
                        "`type Segment struct { _0 Tuple2_int32_int32 … }` and never declares Tuple2_int32_int32")
+    # the sibling collector that decides which `dyn Trait` types are declared starts from the same places
+    dy = model.fn("collect_dyn_requirements", GO)
+    leafs = [g["name"] for g in S.walk(dy.node) if g.get("k") == "Fn" and g.get("name", "").startswith("collect_ty")] or ["collect_ty"]
+    D = tables(dy, leafs[0])
+    for t, loop in sorted(E.items()):
+        ok = t in D
+        run.ob("R02.11", f"collect_dyn_requirements|fields of {t}() are collected", ok, site(GO, (D.get(t) or dy.node)["sp"]),
+               f"gen_type_definition emits field types of {t}(); the dyn collector visits them: {ok}",
+               witness="struct Widget { title: dyn Show, width: int32 } with no function mentioning dyn Show: `title dyn__Show` is emitted, "
+                       "`type dyn__Show` is not (undefined: dyn__Show)")
     # the vtable of a trait used behind dyn spells out the trait's method signatures (trait_method_sigs reads trait_defs)
     sigs = model.fn("trait_method_sigs", GO)
     if "trait_defs" in S.norm_ws(run.facts.text(GO, sigs.body["sp"])):
@@ -577,6 +600,32 @@ def r02_18(run, model):
                        "Go: s declared and not used")
 
 
+def r02_20(run, model):
+    run.rule("R02.20", "a definition lists each member once: define_enum, define_struct and define_trait hand the names of their variants / "
+                       "fields / methods to a test that reports a repeated name (a `!seen.insert(name)` whose failure pushes a diagnostic) - "
+                       "a repeated variant is emitted as two `type V struct` declarations and two `case V:` clauses, a repeated field twice "
+                       "in one Go struct")
+    TL = "crates/compiler/src/typer/toplevel.rs"
+    testers = set()
+    for g in model.fns(TL):
+        if g.body is None:
+            continue
+        for iff in S.find(g.body, "If"):
+            c = S.norm_ws(run.facts.text(TL, iff["cond"]["sp"]))
+            if re.search(r"!\w+\.insert\(", c) and any(x["k"] == "MethodCall" and x["method"] == "push" for x in S.walk(iff["then"])):
+                testers.add(g.name)
+    for name, member in (("define_enum", "variants"), ("define_struct", "fields"), ("define_trait", "method_sigs")):
+        f = model.fn(name, TL)
+        direct = name in testers and re.search(r"\." + member + r"\b", S.norm_ws(run.facts.text(TL, f.body["sp"]))) is not None and any(
+            re.search(r"!\w+\.insert\(", S.norm_ws(run.facts.text(TL, i_["cond"]["sp"]))) for i_ in S.find(f.body, "If"))
+        via = [c for c in S.walk(f.body) if c["k"] == "Call" and S.callee_name(c) in testers - {name} and
+               any(re.search(r"\." + member + r"\b", S.norm_ws(run.facts.text(TL, a["sp"]))) for a in c["args"])]
+        run.ob("R02.20", f"{name}|repeated {member} are reported", direct or bool(via), site(TL, f.node["sp"]),
+               f"uniqueness test on .{member}: " + (f"{S.callee_name(via[0])}(..)" if via else ("inline" if direct else "none")),
+               witness="enum Cmd { Go(int32), Stop, Stop } emits `type Stop struct{}` twice and two `case Stop:`; struct Point { x: int32, y: int32, "
+                       "x: int32 } emits the field x twice; a trait declaring one method twice keeps the last signature")
+
+
 def r02_19(run, model):
     from rules import c01 as _c01
     _c01.r01_9(run, model, only_fns=(r"::go::",), rid="R02.19", floor=18)
@@ -605,6 +654,15 @@ def run(run, model):
     run.try_rule(c06.r06_11, model)
     # the Go-level rewrites (known-variant selection, dead-code elimination) leave invalid Go behind when a nested block is skipped
     run.try_rule(r02_19, model)
+    run.try_rule(r02_20, model)
+    # what the Go printer writes between quotes must be acceptable Go source text (shared with C11 R11.8)
+    from rules import c11 as _c11
+    run.try_rule(_c11.r11_8, model)
+    # `func main() { main0() }` is emitted unconditionally: the entry-point checks of both pipelines (shared with C14 R14.14)
+    from rules import c14 as _c14
+    run.try_rule(_c14.r14_14, model)
+    from rules import c07 as _c07
+    run.try_rule(_c07.r07_18, model)
     from rules import c08
     run.try_rule(c08.r08_1, model)
     from rules import c07
